@@ -214,7 +214,9 @@ func VfC08Announce() {
 	}
 
 	err = h.Handle(vfW, f, &PingHeader{}, f.MessageData())
-	vf.Interleave(nil)
+	if race {
+		vf.Interleave(nil)
+	}
 
 	if closedMeanwhile {
 		// nothing removes a route added now: direct-peer routes never expire and the removal for
